@@ -3,8 +3,8 @@ from ..core import *
 from .. import harness, gen, pyref, gadgets as G, coq
 from ..curve import *
 
-VO = ['Props/C14.vo']
-FILES = ['Props/C14.v', 'Proofs/GadgetProofs.v']
+VO = ['Props/C14.vo', 'Tie/Gadgets.vo']
+FILES = ['Props/C14.v', 'Tie/Gadgets.v', 'Proofs/GadgetProofs.v']
 
 def adversarial_cases(ctx, scale):
     rng = ctx.rng; pool = Pool('ark', rng.fork('pool'), n_rand=3 * scale); cases = []
@@ -18,6 +18,12 @@ def adversarial_cases(ctx, scale):
         r = gen.ZETA * r0 * r0 % Q
         x = (r + 1) * (A - 2 * D) * ((D * r - (D - A)) * ((D - A) * r - D)) % Q
         for h in G.hint_set(rng, x): cases.append(('r1.elligator', '%x' % r0, [r0], h, ''))
+    # encode gadget under every hint: den = u_1 (a - d) x^2 with u_1 = (x + T)(x - T), T = x y
+    for c in [IDENT, T2REP] + pool.base[:3] + pool.derived[:2 * scale]:
+        if not pyref.valid(c): continue
+        x, y = pyref.aff(c); T = x * y % Q
+        den = (x + T) * (x - T) % Q * ((A - D) % Q) % Q * x % Q * x % Q
+        for h in G.hint_set(rng, den): cases.append(('r1.encode', E(c), [x, y], h, ''))
     return pool, cases
 
 def witness_cases(ctx, pool, scale):
@@ -92,6 +98,9 @@ def run_check(ctx):
         elif op == 'r1.elligator':
             nat = pyref.elligator_spec(margs[0])
             if hv is None or not pyref.coset_eq(tuple(hv), nat): bad = 'in-circuit elligator(%x) returns (%s), native gives %s' % (margs[0], v, nat)
+        elif op == 'r1.encode':
+            nat = pyref.encode_spec((margs[0], margs[1]))
+            if hv is None or nat is None or hv[0] != nat: bad = 'in-circuit encode of (%x,%x) returns %s, native gives %s' % (margs[0], margs[1], v, ('%x' % nat) if nat is not None else None)
         elif op == 'r1.new':
             px, py, s = margs; nat = pyref.decode_spec(s)
             if nat is None: bad = 'witness allocation accepts the invalid encoding %x (offered coordinates %x,%x) and returns (%s)' % (s, px, py, v)
